@@ -39,6 +39,16 @@ pub fn gen(seed: u64, _idx: u64, tier: Tier) -> Scenario {
                 if let Ok(f) = tmo.parse::<f64>() { if f > 0.0 { deadlines.push(t + (f * 1e9) as u64); } }
                 sc.steps.push(Step::Send { c, a, split: vec![] });
                 blocked[c] = true; // may in fact be served at once; the generator's view is only a heuristic
+                // now and then more requests follow the blocking one in the same batch: they wait until it has been answered;
+                // and a client that has sent more and then goes away must not be handed an element any more
+                if r.chance(1, 8) {
+                    sc.steps.push(Step::Ctl { name: "behind".into(), n: 0, a: vec![] });
+                    // (a request without effect and with a reply that does not depend on the dataset: when exactly it runs among the
+                    // other clients' requests after the unblocking does not matter)
+                    uniq += 1;
+                    sc.steps.push(Step::Send { c, a: vec![b("ECHO"), b(&format!("behind{}", uniq))], split: vec![] });
+                    if with_close && nc > 2 && r.chance(1, 3) { sc.steps.push(Step::Turns { n: r.range(1, 3) as u32 }); sc.steps.push(Step::Close { c, half: false }); sc.steps.push(Step::Connect { c, inst: 0, buf: 0 }); blocked[c] = false; }
+                }
             }
             1 => { // push 1-3 unique elements
                 if blocked[c] { continue; }
@@ -163,7 +173,7 @@ pub fn exec(sc: &Scenario) -> Outcome {
     let mut h = H::new(sc);
     if let Err(e) = h.boot(&sc.cfg, "a") { return Outcome { verdict: "harness".into(), note: e, ..Default::default() }; }
     let mut m = Multi::new(h, "C13");
-    m.strict_stall = sc.knob("syscall_faults", 0) != 0;
+    let mut behind = false; // the next request is sent although a blocking pop of this client is still unanswered
     let mut closed: BTreeMap<usize, bool> = BTreeMap::new();
     // FIFO bookkeeping: order in which clients blocked per key, checked when they are served
     for (i, st) in sc.steps.iter().enumerate() {
@@ -174,8 +184,10 @@ pub fn exec(sc: &Scenario) -> Outcome {
             Step::Send { c, a, .. } => {
                 // a client that has sent a blocking pop waits for its answer before sending anything else
                 let waiting = m.cl.get(c).map_or(true, |x| x.blocked.is_some() || x.gone || x.inflight.iter().any(|i| { let v = upper(&i.args[0]); v == "BLPOP" || v == "BRPOP" }));
-                if !waiting { m.send(*c, &args_of(a)); }
+                if !waiting || (behind && m.cl.get(c).map_or(false, |x| !x.gone)) { m.send(*c, &args_of(a)); }
+                behind = false;
             }
+            Step::Ctl { name, .. } if name == "behind" => { behind = true; }
             Step::Turns { n } => m.turns(*n),
             Step::Arm { fop, conn: Some(c), nth, action, .. } => m.arm(*c, *fop, *nth, *action),
             Step::Adv { ns } => { m.h.sim.advance(*ns); }
@@ -192,7 +204,7 @@ pub fn exec(sc: &Scenario) -> Outcome {
 pub static DEF: CheckDef = CheckDef {
     id: "C13", level: "exploration", gen, exec,
     nontrivial: |o| o.counters.get("blocked_registered").copied().unwrap_or(0) >= 1 && o.counters.get("quiescent_checks").copied().unwrap_or(0) >= 1,
-    rule: "one run = 2-5 clients over 1-3 list keys: BLPOP/BRPOP on 1-3 keys with timeout 0 / 0.05..5 s, LPUSH/RPUSH of 1-3 unique elements, LPOP/RPOP, pipelined push+pop in one turn, pushes from MULTI/EXEC and from scripts, DEL, blocked clients disconnecting; requests of several clients are delivered before the same loop turn (the server's service order decides who wins), the virtual clock is moved to just before / at / after each timeout deadline; the sequential model follows the server's actual execution order, a served element must be the element at the proper end of the proper list at that moment and go to the earliest-blocked live waiter of that key (FIFO), nil never before the deadline and never for timeout 0; at quiescent points (two idle loop turns): no live blocked client whose key holds an element or whose deadline has passed (promptness/stranding), no registry entry (read-only accessor) for a client that is not blocked (residue), multiset(pushed) = multiset(returned to clients) + multiset(still in lists) (conservation); in a quarter to a third of the runs single reads / writes of the server on a client's socket are made to fail with EINTR, to come back empty-handed (EAGAIN, reads only) or to transfer only 1..100 bytes (fault injection at the libc boundary) - transient outcomes that must not change any reply or the dataset; non-trivial = at least one client actually blocked and one quiescent check; the realtime clock is stepped by up to +-1 h at random points (timeouts are monotonic-clock deadlines and must not move)",
+    rule: "one run = 2-5 clients over 1-3 list keys: BLPOP/BRPOP on 1-3 keys with timeout 0 / 0.05..5 s, LPUSH/RPUSH of 1-3 unique elements, LPOP/RPOP, pipelined push+pop in one turn, pushes from MULTI/EXEC and from scripts, DEL, blocked clients disconnecting; requests of several clients are delivered before the same loop turn (the server's service order decides who wins), the virtual clock is moved to just before / at / after each timeout deadline; the sequential model follows the server's actual execution order, a served element must be the element at the proper end of the proper list at that moment and go to the earliest-blocked live waiter of that key (FIFO), nil never before the deadline and never for timeout 0; at quiescent points (two idle loop turns): no live blocked client whose key holds an element or whose deadline has passed (promptness/stranding), no registry entry (read-only accessor) for a client that is not blocked (residue), multiset(pushed) = multiset(returned to clients) + multiset(still in lists) (conservation); now and then further requests follow a blocking pop in the same batch (they must wait for its reply), and a blocked client that has sent more goes away; in a quarter to a third of the runs single reads / writes of the server on a client's socket are made to fail with EINTR, to come back empty-handed (EAGAIN, reads only) or to transfer only 1..100 bytes (fault injection at the libc boundary) - transient outcomes that must not change any reply or the dataset; non-trivial = at least one client actually blocked and one quiescent check; the realtime clock is stepped by up to +-1 h at random points (timeouts are monotonic-clock deadlines and must not move)",
     quick_budget_s: 40.0, thorough_budget_s: 900.0, quick_max_runs: 1_000_000, thorough_max_runs: 100_000_000, exhaustive: false, exhaustive_after: |_| 0,
     real: REAL_WHOLE_SERVER, stub: STUB_WHOLE_SERVER, assumptions: ASSUME_COMMON,
 };
